@@ -241,16 +241,23 @@ where
 fn band_case(ctx: &Ctx, rep: &mut Report, case: u64, g: &mut Sm64) {
     let mon = "band";
     let d = g.range(1, 5);
-    let target = DenseGauss::random(g, d, 10.0);
+    // an additive constant in the unnormalised log-density (e.g. a likelihood over many
+    // observations) must not matter: only energy differences enter
+    let shift = if g.chance(0.5) { 0.0 } else { g.log_uniform(1e3, 1e8) * if g.bool() { 1.0 } else { -1.0 } };
+    let base = DenseGauss::random(g, d, 10.0);
+    let target = Shifted { inner: base.clone(), c: shift };
+    if shift != 0.0 {
+        rep.count("band_cases_with_additive_constant");
+    }
     let delta = *g.choose(&[0.6f64, 0.8, 0.9, 0.95]);
     let (warm, post, chains) = if ctx.thorough { (500, 300, 16) } else { (300, 150, 6) };
     let mut stats = vec![];
     for c in 0..chains {
-        let init = target.draw(g);
+        let init = base.draw(g);
         let seed = g.next_u64();
         hook::enable();
         let r = guard(|| {
-            let mut chain = NUTSChain::<f64, B64, DenseGauss>::new(target.clone(), init.clone(), delta).set_seed(seed);
+            let mut chain = NUTSChain::<f64, B64, Shifted<DenseGauss>>::new(target.clone(), init.clone(), delta).set_seed(seed);
             let _ = chain.run(post, warm);
         });
         let events = hook::take();
@@ -271,7 +278,7 @@ fn band_case(ctx: &Ctx, rep: &mut Report, case: u64, g: &mut Sm64) {
     // calibrated on the unchanged tree: the averaged iterate is conservative (realised >= requested)
     if mean < delta - 0.10 || mean > delta + (1.0 - delta) * 0.8 + 0.05 {
         rep.violation("NUTSChain realised-acceptance-statistic-far-from-requested", mon, case,
-            json!({"delta": delta, "mean_post_warmup_statistic": mean, "per_chain": stats, "dim": d, "warmup": warm}));
+            json!({"delta": delta, "mean_post_warmup_statistic": mean, "per_chain": stats, "dim": d, "warmup": warm, "additive_constant": shift}));
         return;
     }
     rep.held();
